@@ -49,3 +49,16 @@ package xar
 //@   before call checkFile(_, f): assert @members_checked_in_list_order f == dataFiles[checked]
 //@   ensures @every_gathered_member_checked ret0 == nil ==> checked == len(dataFiles)
 //@   loop 0 sig "for _, f := range dataFiles" invariant -1 <= rangeindex && rangeindex < len(dataFiles) && checked == rangeindex + 1
+//@
+//@ func Sign
+//@   property C03 C08
+//@   requires r != nil && cert != nil
+//@   ghost adds int = 0
+//@   ghost old int = -1
+//@   on call removeSigs(_) ret (n): old = n
+//@   before call checkFiles(t, h): assert @members_are_checked_against_the_table_of_contents_before_anything_is_signed t == toc && adds == 0
+//@   before call adjustOffsets(_, delta): assert @member_offsets_move_by_the_change_in_signature_space delta == wrap64(newSigSize - old)
+//@   before call (*binpatch.PatchSet).Add(_, off, sz, blob): assert @header_table_of_contents_and_old_signatures_are_replaced_as_one_block \
+//@        adds == 0 && off == 0 && sz == 28 + hdr.CompressedSize + old && old >= 0 && hdr.CompressedSize >= 0
+//@   on call (*binpatch.PatchSet).Add(_, _, _, _) ret (): adds = adds + 1
+//@   ensures @one_replacement ret2 == nil ==> adds == 1
